@@ -154,6 +154,17 @@ pub fn run(ctx: &mut Ctx) {
     if !never_ok.is_empty() && ctx.violations().is_empty() {
         ctx.inconclusive.push(format!("variants never exercised successfully: {never_ok:?}"));
     }
+    if ctx.tier == crate::Tier::Thorough && ctx.violations().is_empty() {
+        let t = Tables::build();
+        for bytes in crate::fuzzrun::campaign(ctx, "vm_diff", 16, 600000, 768) {
+            let c = crate::fuzzdec::decode_vm(&bytes, &t);
+            let mut p = Probe::default();
+            let opts = crate::vm_oracle::VmOpts { sweep: true, full_sweep_upto: 24, labels: false };
+            if let Err(f) = crate::vm_oracle::vm_oracle(&t, &c, &opts, &mut p) {
+                ctx.violation("fuzz_vm_diff", &f, serde_json::to_value(&c).unwrap_or(Value::Null));
+            }
+        }
+    }
 }
 
 pub fn replay(ctx: &mut Ctx, sub: &str, case: &Value) {
